@@ -77,6 +77,37 @@ MONITORED = {K_TLI: "table_lookup_index", K_SKEL: "skeletonize_loop", K_IL: "ind
              K_MED: "median_filter", K_RT: "reduction_transfer", K_AUG: "augment", K_EMD: "emd_hat_int32"}
 
 
+# per kernel: what is PROVED on a model (theorem names of Props/C19.v), what is MONITORED at the boundary (extracted
+# kernel_pre_K on every recorded call), what is left to the address-sanitised build alone; written into the evidence
+KERNEL_STATUS = {
+    "table_lookup_index": ("Full: C19_table_lookup_index_safe (own bounds-checked model)", "kernel_pre_tli", ""),
+    "skeletonize_loop": ("Full: C19_skeletonize_loop_safe", "kernel_pre_skel", ""),
+    "index_lookup": ("Full: C19_index_lookup_safe, C19_index_lookup_never_negative", "kernel_pre_il",
+                     "prepare_for_index_lookup / extract_from_image_lookup (NumPy-level code inside the .pyx)"),
+    "grey_reconstruction_loop": ("Full: C19_recon_loop_safe (C04's model and loop theorem on the raw arguments)",
+                                 "kernel_pre_recon (+ padding geometry read from the caller's frame)", "n-D (not 2-D) calls"),
+    "propagate": ("Full for the priority queue: C19_heap_safe / _heappush_safe / _heappop_safe (pointer-level heap.pxd, "
+                  "capacity doubling, malloc/free pairing)", "kernel_pre_propagate",
+                  "the pixel loop itself (clamped_fetch, labels/distances/mask reads) is not modelled"),
+    "augmenting_row_reduction": ("Full relative to the comparison oracle: C19_arr_full_safe", "kernel_pre_arr", ""),
+    "reduction_transfer": ("Full: C19_reduction_transfer_safe", "kernel_pre_rt", ""),
+    "augment": ("Partial, one premise (aug_scan_nonempty): C19_augment_row_safe_partial, C19_augment_none_is_empty_scan (Full), "
+                "C19_augment_final_loop_safe_partial; C01's pred-chain / flip / fuel theorems re-exported",
+                "kernel_pre_augment", "that every rebuild of scan finds a column (has_PM + adequacy of inf)"),
+    "_all_connected_components": ("Full: C19_all_connected_components_safe", "kernel_pre_acc", ""),
+    "fill_labeled_holes_loop": ("Full: C19_fill_labeled_holes_loop_safe", "kernel_pre_fill", ""),
+    "trace_outlines": ("Full: C19_trace_outlines_safe", "kernel_pre_trace", ""),
+    "convex_hull_ijv": ("Full for the in-place WRITES: C19_convex_hull_write_bound (C02's model + C02_hull_no_overflow)",
+                        "kernel_pre_hull", "the reads of the buffer walk (C02's model uses total accessors)"),
+    "median_filter": ("Full, piecewise: C19_median_model_safe (C07's invariant carries every array size; column step), "
+                      "C19_median_pre_indices, C19_median_hist_indices, C19_median_pixel_offset",
+                      "kernel_pre_median", "no single end-to-end bounds-checked model; malloc failure path"),
+    "emd_hat_int32": ("Full for the array copies: C19_emd_pre_copies_safe; heap / position table of min_cost_flow.hpp: "
+                      "C10's line-level theorems re-exported (C19_reexp_C10_heap_*)", "kernel_pre_emd",
+                      "the other C++ containers of FastEMD (std::vector / std::list indexing in emd_hat_impl.hpp, flow_utils.hpp)"),
+}
+
+
 # =========================================================================================== spy
 class _Rec:
     calls = None          # list while recording
@@ -929,6 +960,12 @@ def check(ctx, cases, outs):
             leak_box["t"] = round(time.time() - t, 1)
         leak_thread = threading.Thread(target=_leak_job)
         leak_thread.start()
+    if len(cases) > 80:            # the per-kernel status goes into the evidence (coverage.notes / distribution)
+        for name, (proved, mon, asan_only) in KERNEL_STATUS.items():
+            nmon = ctx.counters.get("pre:" + name, 0)
+            ctx.counters["monitored_calls:" + name] = nmon
+            ctx.notes.append("kernel %s | proved on model: %s | monitored at the boundary: %s on %d recorded calls | "
+                             "ASan only: %s" % (name, proved, mon, nmon, asan_only or "nothing beyond the compiled object itself"))
     if args:
         t = time.time()
         res = _run_model_parallel(ctx, "entry_pre", args, jobs=8)
@@ -1038,8 +1075,10 @@ MANIFEST = {
                    "every recorded kernel call; the behaviour of the compiled object is observed (address-sanitised "
                    "build over the generators of C01-C08, C10, C15), not proved"),
     "level_note": ("not expressible in the model: malloc/realloc failure, int32 wrap of flat indices beyond 2^31 "
-                   "elements, the C++ containers of FastEMD, Cython buffer unpacking; not proved: that augment's search "
-                   "always returns (aug_scan_nonempty: needs has_PM) and that its predecessor links form a chain; "
+                   "elements, the C++ containers of FastEMD outside the heap, Cython buffer unpacking; not proved: that "
+                   "augment's search always returns (aug_scan_nonempty: needs has_PM and the adequacy of inf = sum(c)+1; "
+                   "the only remaining premise of C19_augment_row_safe_partial), propagate's pixel loop, the reads of "
+                   "the hull buffer walk; per kernel proved / monitored / ASan-only: coverage.notes of the evidence; "
                    "leaks are observed by repeated calls (mallinfo2 growth), not proved"),
     "technique": "Coq index-safety theorems + run-time boundary monitoring with extracted checkers + ASan search",
     "design_ref": "DESIGN.md section 7, C19; section 8",
